@@ -113,7 +113,9 @@ pub fn value(rng: &mut Rng, v: V) -> String {
         V::Words => {
             // now and then a list long enough to pass any line-folding threshold
             let n = if rng.chance(1, 10) { 12 + rng.below(12) } else { 1 + rng.below(3) };
-            (0..n).map(|_| word(rng)).collect::<Vec<_>>().join(" ")
+            // dpkg folds long lists: one item per line is as legal as one line
+            let sep = if n > 1 && rng.chance(1, 5) { "\n" } else { " " };
+            (0..n).map(|_| word(rng)).collect::<Vec<_>>().join(sep)
         }
         V::CommaWords => (0..1 + rng.below(3)).map(|_| rng.s(&["foo", "bar", "libfoo-dev", "a"]).to_string()).collect::<Vec<_>>().join(", "),
         V::Lines => (0..1 + rng.below(3)).map(|_| word(rng)).collect::<Vec<_>>().join("\n"),
